@@ -733,6 +733,18 @@ def oracle_c18(rows):
                             if o["status"] != 4 or e["type"] != 5 or e["confirmed"]:
                                 fails.append(_fail(r, idx, "received output %s vanished with its kernel but is recorded status %d, entry type %d confirmed %s"
                                                    % ((o["acct"], o["child"]), o["status"], e["type"], e["confirmed"])))
+            if k == "scan" and s["op"].get("outage") and s["rc"] == [0]:
+                fails.append(_fail(r, idx, "scan reported success although the refresh of the wallet's outputs it starts "
+                                           "with failed (node outage): nothing has checked the records against the UTXO set"))
+            # a payment reported reverted stays reported so (or confirmed again) whatever else the wallet's
+            # periodic update does: it is not a pending transaction that could expire
+            if k in ("update_state", "refresh") and s["rc"] == [0] and prev is not None:
+                pe = {(t["parent"], t["id"]): t for t in prev["txs"]}
+                for t in snap["txs"]:
+                    p0 = pe.get((t["parent"], t["id"]))
+                    if p0 is not None and p0["type"] == 5 and t["type"] == 3:
+                        fails.append(_fail(r, idx, "%s turned the reverted payment %s (cutoff %s) into a cancelled one"
+                                           % (k, (t["parent"], t["id"]), t["ttl"])))
             if k == "lock" and s["rc"] == [0] and prev is not None:
                 po = outputs_by_key(prev)
                 for a, c, m, _v in (s["extra"].get("ctx_inputs") or []):
